@@ -3,7 +3,7 @@
    N, positive, comparison, nat stay extracted datatypes.  No Extract Constant. *)
 From Coq Require Import Extraction ExtrOcamlBasic.
 From Coq Require Import List NArith.
-From JS Require Import Model.Base Model.Shape Model.Sem Model.Subset Model.Merger Model.Infer Model.Api Model.Repr Model.Cost Model.Gen Model.GenClass.
+From JS Require Import Model.Base Model.Shape Model.Sem Model.Subset Model.Merger Model.Infer Model.Api Model.Repr Model.Cost Model.Gen Model.GenClass Model.OneOfClass.
 From JS Require Import Model.Lexer Model.Parser Model.Walk Model.TextApi Model.JsonRef Model.ValueCost Model.TextClasses Model.Depth.
 Extraction Language OCaml.
 Set Extraction AccessOpaque.
@@ -31,4 +31,6 @@ Extraction "Model.ml"
   (* recursion depth twins (Model/Depth.v) *)
   parse_depth walk_depth value_depth
   (* class of KF4 *)
-  same_types.
+  same_types
+  (* class on which C03 is a theorem (complement = KF2) *)
+  scalar_oneofs.
